@@ -247,4 +247,21 @@ example : Ascii "hello".toList := by intro c hc; simp at hc; rcases hc with rfl 
 example : substringOne "hello".toList 1 3 = some "el".toList := by decide
 example : substringOne "hello".toList 65537 65539 = none := by decide
 
+/-- **`parse_char` on integers: the ten digits and nothing else** - for EVERY integer (no wrap-around at 2^32 or
+    anywhere): 0..9 give the digit character, every other integer is a ParseError -/
+theorem C18_parse_char_int (env : Env) (p : Path) (i : Int) :
+    (0 ≤ i ∧ i ≤ 9 → callFunction env .parseChar [[.resolved (.int p i)]] =
+        .ok [some (.char p (Char.ofNat ('0'.toNat + i.toNat)))]) ∧
+    ((i < 0 ∨ 9 < i) → callFunction env .parseChar [[.resolved (.int p i)]] = .err .ParseError) := by
+  constructor
+  · rintro ⟨h0, h9⟩
+    have h1 : ¬ i < 0 := by omega
+    have h2 : ¬ 9 < i := by omega
+    simp [callFunction, perValue, ok_bind, h1, h2]
+  · intro h
+    rcases h with h | h <;> simp [callFunction, perValue, ok_bind, h]
+
+example (env : Env) : callFunction env .parseChar [[.resolved (.int Path.root 4294967301)]] = .err .ParseError :=
+  (C18_parse_char_int env Path.root 4294967301).2 (Or.inr (by decide))
+
 end Guard.C18
